@@ -106,6 +106,22 @@ def main():
                     f.write("| %s | %s | %s | %s | %s | %.0f | %s |\n" % (
                         res["name"], res.get("prop", ""), res.get("tests", "-"), chk,
                         "yes" if c["caught"] else "**NO** (rc=%s)" % c["rc"], c["s"], ", ".join(c["mechanisms"])[:120]))
+    else:
+        # a partial run replaces the rows of the mutants it ran in the existing table
+        path = os.path.join(HERE, "validation", "mutants.md")
+        if os.path.exists(path):
+            lines = open(path).read().splitlines()
+            ran = set(r["name"] for r in rows)
+            keep = [ln for ln in lines if not (ln.startswith("| ") and ln.split("|")[1].strip() in ran)]
+            for res in rows:
+                if "error" in res:
+                    keep.append("| %s | %s | - | - | ERROR: %s | | |" % (res["name"], res.get("prop", ""), res["error"][:80]))
+                    continue
+                for chk, c in res["checks"].items():
+                    keep.append("| %s | %s | %s | %s | %s | %.0f | %s |" % (
+                        res["name"], res.get("prop", ""), res.get("tests", "-"), chk,
+                        "yes" if c["caught"] else "**NO** (rc=%s)" % c["rc"], c["s"], ", ".join(c["mechanisms"])[:120]))
+            open(path, "w").write("\n".join(keep) + "\n")
     missed = [r["name"] for r in rows if "error" in r or not all(c["caught"] for c in r["checks"].values())]
     print("missed/errors:", missed)
 
